@@ -554,7 +554,7 @@ func (p *Path) vpPrimitive(name string, fn *ssa.Function, args []Value) Value {
 			p.abort(abInconclusive, "vpWord: %v", err)
 		}
 		return p.strConst(w)
-	case "vpRaceNative":
+	case "vpRaceNative", "vpGCNative":
 		return ts.False
 	case "vpRunConcurrently":
 		p.callValue(args[0].(FuncV), nil)
